@@ -83,6 +83,28 @@ func ruleAddRemoveSymmetry(r *Run) {
 	if len(add) == 0 {
 		r.undecided("state/add-path", token.NoPos, "registration writes no state container")
 	}
+	// a connection leaves state.conns only together with its handlers: the only function that deletes from
+	// state.conns is the one that filters state.handlers (a bare delete in the refresh path of addConnHandler leaves
+	// the previous generation of handlers registered under a connection nobody can drop any more)
+	rmRegion := map[*ssa.Function]bool{}
+	for _, g := range p.region(rm) {
+		rmRegion[g] = true
+	}
+	strays := 0
+	for _, fn := range p.ModuleFuncs() {
+		if rmRegion[fn] {
+			continue
+		}
+		for _, w := range e.OwnWrites(fn) {
+			if w.Kind == "delete" && w.Target() == "state.conns" {
+				strays++
+				r.bad(shortFunc(fn)+"/conns-delete-outside-removeHandler", w.Instr.Pos(), "%s deletes a connection from state.conns without going through removeHandler: the connection's handlers and routes stay registered, and DropConn no longer finds them", shortFunc(fn))
+			}
+		}
+	}
+	if strays == 0 {
+		r.ok("state.conns/deleted-only-with-handlers", rm.Pos(), "state.conns is deleted from only in removeHandler, next to the filtering of state.handlers")
+	}
 	for t := range add {
 		if t == "state.handlers" && !del[t] {
 			if hr := p.handlersRemoval(rm); hr.mode == "keep-empty" {
@@ -971,6 +993,50 @@ func ruleHealthTable(r *Run) {
 		return true
 	})
 	r.check(merged, "health.AddHealthz/merged-into-config", fd.Pos(), "the rules are merged into the caller's service config", "the healthz rules are not merged into the service config passed in")
+	// what is merged is the rule table written above, whole: the Rules field of the merged message is assigned
+	// the literal list only (a list filtered or rebuilt on the way - "skip selectors the config already has" -
+	// leaves /v1/healthz unbound for a method the user also exposes elsewhere)
+	var fn *ssa.Function
+	for _, f := range p.ModuleFuncs() {
+		if f.Name() == "AddHealthz" && f.Parent() == nil && f.Pkg != nil && f.Pkg.Pkg == p.Health.Types {
+			fn = f
+		}
+	}
+	if fn == nil {
+		r.undecided("health.AddHealthz/rules-unfiltered", fd.Pos(), "AddHealthz not found in the SSA program")
+		return
+	}
+	nStores, bad := 0, ""
+	var badPos token.Pos = fd.Pos()
+	for _, g := range allFuncsDeep(fn) {
+		eachInstr(g, func(in ssa.Instruction) {
+			st, ok := in.(*ssa.Store)
+			if !ok {
+				return
+			}
+			fa, ok := st.Addr.(*ssa.FieldAddr)
+			if !ok || fieldOfAddr(fa).Name() != "Rules" {
+				return
+			}
+			nStores++
+			for _, o := range p.origins(st.Val, originOpts{throughSlice: true}) {
+				if al, ok := o.(*ssa.Alloc); ok && al.Comment == "slicelit" {
+					continue
+				}
+				bad = describeValue(o)
+				if n := sourceCall(o); n != "" {
+					bad = "the result of " + shortName(n)
+				}
+				badPos = st.Pos()
+			}
+		})
+	}
+	if nStores == 0 {
+		r.undecided("health.AddHealthz/rules-unfiltered", fd.Pos(), "no assignment of an Http.Rules field found")
+		return
+	}
+	r.check(bad == "", "health.AddHealthz/rules-unfiltered", badPos, "the merged Http.Rules is the literal rule list",
+		fmt.Sprintf("Http.Rules of the merged config is assigned %s, not the literal healthz rule list: a rule can be dropped before the merge and /v1/healthz stays unbound for that method", bad))
 }
 
 // ---------------------------------------------------------------------------
